@@ -206,12 +206,8 @@ func (p *Prog) twinProduces(fn *ssa.Function, start, from *ssa.BasicBlock, coll 
 					return
 				}
 				if ex, ok := rv.(*ssa.Extract); ok {
-					if c, ok := ex.Tuple.(*ssa.Call); ok {
-						for _, g := range p.gates() {
-							if c.Call.StaticCallee() == g.Fn {
-								return // reports a failure through a suppression helper
-							}
-						}
+					if c, ok := ex.Tuple.(*ssa.Call); ok && p.alwaysFails(calledFunc(c), 0) {
+						return // reports a failure (through a suppression helper or a function that only fails)
 					}
 				}
 				bad = "the path to the return at " + p.pos(x.Pos()) + " hands nothing on"
@@ -263,3 +259,48 @@ func (p *Prog) twinProduces(fn *ssa.Function, start, from *ssa.BasicBlock, coll 
 }
 
 func init() { register(ruleEarlyExit) }
+
+// calledFunc: the function a call invokes when that is known statically: a
+// static callee, or a function literal bound to a local.
+func calledFunc(c *ssa.Call) *ssa.Function {
+	if f := c.Call.StaticCallee(); f != nil {
+		return f
+	}
+	switch v := c.Call.Value.(type) {
+	case *ssa.MakeClosure:
+		f, _ := v.Fn.(*ssa.Function)
+		return f
+	case *ssa.Function:
+		return v
+	}
+	return nil
+}
+
+// alwaysFails: every return of the status-returning function reports failure:
+// the constant failed status, or the result of a suppression helper or of
+// another function that always fails.
+func (p *Prog) alwaysFails(fn *ssa.Function, depth int) bool {
+	if fn == nil || fn.Blocks == nil || depth > 3 || p.pairKind(fn.Signature) != "status" {
+		return false
+	}
+	for _, g := range p.gates() {
+		if g.Fn == fn {
+			return true
+		}
+	}
+	n := 0
+	for _, r := range expandedReturns(fn) {
+		n++
+		v := stripConv(r.Results[0])
+		if k, isC := constInt(v); isC && k == constOf(p.A.StatusFailed) {
+			continue
+		}
+		if ex, ok := v.(*ssa.Extract); ok {
+			if c, ok := ex.Tuple.(*ssa.Call); ok && p.alwaysFails(calledFunc(c), depth+1) {
+				continue
+			}
+		}
+		return false
+	}
+	return n > 0
+}
